@@ -172,6 +172,51 @@ MUTANTS = [
 ]
 
 
+def _cxx_pointer_order(repo):
+  """C04 anchor `typegraph uses id-ordered std::set, never pointer order`: every ORDERED standard container of the typegraph
+  whose key is a pointer (std::set<T*>, std::map<T*, ...>) names the id comparator pointer_less -- otherwise its iteration order
+  is the order of heap addresses, which differs from run to run and with what was analysed before."""
+  import os
+  import re
+  out = []
+  n = 0
+  for rel in ('pytype/typegraph/typegraph.h', 'pytype/typegraph/typegraph.cc', 'pytype/typegraph/solver.h', 'pytype/typegraph/solver.cc',
+              'pytype/typegraph/reachable.h', 'pytype/typegraph/reachable.cc', 'pytype/typegraph/cfg.cc'):
+    path = os.path.join(repo, rel)
+    if not os.path.exists(path):
+      continue
+    text = open(path, encoding='utf-8').read()
+    text_nc = re.sub(r'//[^\n]*', '', text)
+    for m in re.finditer(r'std::(set|map|multiset|multimap)\s*<', text_nc):
+      # the template argument list (balanced angle brackets)
+      i, depth = m.end(), 1
+      while i < len(text_nc) and depth:
+        depth += {'<': 1, '>': -1}.get(text_nc[i], 0)
+        i += 1
+      args = text_nc[m.end():i - 1]
+      first = re.split(r',(?![^<]*>)', args)[0].strip()
+      if not first.endswith('*'):
+        continue
+      n += 1
+      ok = 'pointer_less' in args
+      line = text_nc.count('\n', 0, m.start()) + 1
+      o = Obligation('C04/%s/frame#id-ordered-container@%s' % (rel, re.sub(r'\W+', '_', first)), 'frame', [], z3.BoolVal(ok), line=line,
+                     detail='std::%s<%s> is ordered by object id (pointer_less), not by heap address' % (m.group(1), ' '.join(args.split())[:80]))
+      o.owner = rel
+      o.prechecked = True
+      o.status, o.backend = ('proved' if ok else 'sat'), 'frame-scan'
+      o.model = None if ok else 'std::%s<%s> at %s:%d iterates in heap-address order' % (m.group(1), ' '.join(args.split())[:80], rel, line)
+      out.append(o)
+  g = Obligation('C04/pytype/typegraph/frame#id-ordered-containers-found', 'frame', [], z3.BoolVal(n >= 3),
+                 detail='the scan found %d ordered pointer-keyed containers in the typegraph sources' % n)
+  g.owner = 'pytype/typegraph'
+  g.prechecked = True
+  g.status, g.backend, g.model = ('proved' if n >= 3 else 'unknown'), 'frame-scan', None
+  g.undecided_if_no_witness = True
+  out.append(g)
+  return out
+
+
 def extra_obligations(repo):
   from engine import frames
-  return _extra_obligations_base(repo) + frames.equality_frames('C04', repo, [('pytype/errors/errors.py', 'Error', 'identity')])
+  return _extra_obligations_base(repo) + frames.equality_frames('C04', repo, [('pytype/errors/errors.py', 'Error', 'identity')]) + _cxx_pointer_order(repo)
